@@ -219,6 +219,7 @@ impl World {
                     self.searchers[idx].nodes += 1;
                     self.stats.hit("op.s-make");
                     self.note_kind_made(&mv, rook_home);
+                    self.note_geometry(&info.pos, m);
                     let transient = lib_exposes || model_exposes;
                     if transient {
                         self.stats.hit("probe.king-attacked-after-make");
